@@ -86,6 +86,17 @@ TEXT = {
          "assertion reachable from a guard requires a handle (a guard outlives the fallback's temporary handle; F9, fixed). "
          "Deadlock freedom and all TLS destruction orders are not decided.", "4.5, 5/C20, 10.3"),
 }
+ORD = ("Necessary memory-ordering floors of the accesses involved are checked (ORD-*, DESIGN 10.7); sufficiency of orderings is "
+       "not decided.")
+EXTRA = {p: [ORD] for p in ("C01", "C03", "C04", "C13", "C14", "C17", "C18", "C08", "C09", "C02", "C15")}
+EXTRA["C02"].append("Includes every grace-period rule of C13 (repin_without_collect callable only from unpin's loop and the "
+                    "cascade: F10, fixed).")
+EXTRA["C03"].append("The WeakSnapshot clause includes every grace-period rule of C13.")
+EXTRA["C04"].append("'Nothing leaks / never twice' includes the run-exactly-once rules of C15 for deferred functions.")
+EXTRA["C15"].append("The structural part of 'eventually' is decided: every flush and bag overflow schedules a collection, every "
+                    "collection tries to advance; that finitely many rounds suffice is not.")
+EXTRA["C17"].append("The retry wrappers return None only as the Ok payload of their last attempt (a lost race retries).")
+EXTRA["C16"] = ["unpin writes back a guard count read after the collection (F11, fixed)."]
 NOTE = ("trusted base: rustc nightly MIR/const-eval/callee resolution, the mirfacts exporter, the circlint path reader and "
         "higher-order models (Result::map, array::from_fn, LocalKey::with, scopeguard); only the live cfg! arm (x86-64) and "
         "non-unwinding paths are judged; user pop_edges/Drop assumed to honour RcObject's contract")
@@ -121,6 +132,7 @@ def main():
         if pid in registry.PROPS and pid in TEXT:
             spec = registry.PROPS[pid]
             txt, ref = TEXT[pid]
+            txt = " ".join([txt] + EXTRA.get(pid, []))
             checks.append({
                 "property_id": pid,
                 "quick_cmd": "./check %s --tier quick" % pid,
